@@ -4,6 +4,10 @@ package main
 import (
 	"verif/driver"
 	_ "verif/props"
+	_ "verif/props/diskp"
+	_ "verif/props/faultp"
+	_ "verif/props/fsp"
+	_ "verif/props/miscp"
 )
 
 func main() { driver.Main("./cmd/vcheck") }
